@@ -13,6 +13,5 @@ CONSTANTS
   Sizes = {0, 1, 2}
   Aligns = {1, 2, 4}
   Policy = "contract"
-  Scribble = "either"
-INVARIANTS TypeOK WhyAgrees PairwiseDisjoint Intact
-PROPERTIES FrameOK
+  Scribble = "zero"
+INVARIANTS TypeOK BurstAgrees
